@@ -474,7 +474,11 @@ func (c *daneDelivery) PrepareConn(ctx context.Context, mx string) {
 		return
 	}
 
-	c.tlsaFut = future.New()
+	// The goroutine sets the future it was started for, not whatever
+	// c.tlsaFut points to when the lookup completes (PrepareConn is called
+	// again for the next MX candidate).
+	tlsaFut := future.New()
+	c.tlsaFut = tlsaFut
 
 	go func() {
 		defer func() {
@@ -484,7 +488,7 @@ func (c *daneDelivery) PrepareConn(ctx context.Context, mx string) {
 			}
 		}()
 
-		c.tlsaFut.Set(c.discoverTLSA(ctx, dns.FQDN(mx)))
+		tlsaFut.Set(c.discoverTLSA(ctx, dns.FQDN(mx)))
 	}()
 }
 
